@@ -14,6 +14,9 @@ the model derives them: `children n = {c | parent c = node n}`,
 `symbols n = {s | referents s = n}` in increasing id order.  Where the code
 removes a node from its parent's `children` without re-adding it elsewhere
 (the node is then unreachable garbage), the model sets its parent to `dead`.
+
+Loops run on fuel (`next + 1` iterations, one per RefNode); running out of
+fuel is reported as `AdtErr.assertion`-like `fuel` errors, never silently.
 -/
 namespace GtirbVerif.Adt
 
@@ -44,18 +47,69 @@ def RC.children (c : RC) (n : Nat) : List Nat :=
 def RC.symbols (c : RC) (n : Nat) : List Nat :=
   (List.range c.nSyms).filter (fun s => c.referents s == some n)
 
-/-- allocate `RefNode(block)` -/
-def RC.alloc (c : RC) (b : Nat) : RC × Nat :=
-  ({ c with next := c.next + 1, parent := fset c.parent c.next (.block b) }, c.next)
+/-- `self._references[b] = RefNode(b), RefNode(b)` when the block has no trees -/
+def RC.newTrees (c : RC) (b : Nat) : RC :=
+  { c with next := c.next + 2,
+           parent := fset (fset c.parent c.next (.block b)) (c.next + 1) (.block b),
+           refs := fset c.refs b (some (c.next, c.next + 1)),
+           refBlocks := c.refBlocks ++ [b] }
+
+def RC.ensureTrees (c : RC) (b : Nat) : RC :=
+  match c.refs b with
+  | some _ => c
+  | none => c.newTrees b
+
+/-- the `for symbol in tuple(block.references)` loop of `retarget_references`:
+every direct reference to `b` becomes an indirect one in the start or end tree -/
+def RC.indirectify (c : RC) (b : Nat) : RC :=
+  match c.refs b with
+  | none => c
+  | some (sr, er) =>
+    { c with referents := fun s => if c.direct s = some b then some (if c.atEnd s then er else sr)
+                                   else c.referents s,
+             direct := fun s => if c.direct s = some b then none else c.direct s }
+
+/-- `target_ref.children.add(start_refs/end_refs); start_refs.parent = end_refs.parent = target_ref` -/
+def RC.hang (c : RC) (sr er tgt : Nat) : RC :=
+  { c with parent := fset (fset c.parent sr (.node tgt)) er (.node tgt) }
+
+/-- `self._references.pop(block)` -/
+def RC.detach (c : RC) (b : Nat) : RC :=
+  { c with refs := fset c.refs b none, refBlocks := c.refBlocks.filter (· != b) }
+
+/-- retargeting a block to itself: its trees were popped, so `to_block not in
+self._references` and a fresh pair is created for the same block -/
+def RC.selfTrees (c : RC) (b : Nat) : RC :=
+  { c with next := c.next + 2,
+           parent := fset (fset c.parent c.next (.block b)) (c.next + 1) (.block b),
+           refs := fset c.refs b (some (c.next, c.next + 1)),
+           refBlocks := c.refBlocks.filter (· != b) ++ [b] }
+
+/-- detach the trees of `b`, make sure `t` has trees, hang both trees of `b`
+under the start or end root of `t` -/
+def RC.graft (c : RC) (b t : Nat) (atEnd : Bool) : RC :=
+  match c.refs b with
+  | none => c
+  | some (sr, er) =>
+    if t = b then
+      (c.selfTrees b).hang sr er (if atEnd then c.next + 1 else c.next)
+    else
+      let c2 := c.ensureTrees t
+      match c2.refs t with
+      | none => c2
+      | some (ts, te) => (c2.detach b).hang sr er (if atEnd then te else ts)
 
 /-- `set_referent(symbol, referent, at_end)` -/
 def RC.setReferent (c : RC) (s : Nat) (r : Option Nat) (atEnd : Bool) : RC :=
   { c with referents := fset c.referents s none, direct := fset c.direct s r,
            atEnd := fset c.atEnd s atEnd }
 
+def RC.treeEmpty (c : RC) (n : Nat) : Bool := (c.children n).isEmpty && (c.symbols n).isEmpty
+
+def RC.withParent (c : RC) (par : Nat → PRef) : RC := { c with parent := par }
+
 /-- the `while isinstance(parent, RefNode)` loop of `get_referent`.
-`hasSyms n`: does node `n` still carry symbols. Returns the root reached and
-the updated parent table. -/
+Returns the root reached, its block and the updated parent table. -/
 def RC.climb (c : RC) : Nat → Nat → (Nat → PRef) → Option (Nat × Nat × (Nat → PRef))
   | 0, _, _ => none
   | fuel + 1, ref, par =>
@@ -63,10 +117,8 @@ def RC.climb (c : RC) : Nat → Nat → (Nat → PRef) → Option (Nat × Nat ×
     | .block b => some (ref, b, par)
     | .dead => none
     | .node p =>
-      let cNow : RC := { c with parent := par }
-      let empty := (cNow.children ref).isEmpty && (c.symbols ref).isEmpty
       let par' :=
-        if empty then fset par ref .dead
+        if (c.withParent par).treeEmpty ref then fset par ref .dead
         else match par p with
           | .node g => fset par ref (.node g)
           | _ => par
@@ -77,15 +129,15 @@ def RC.getReferent (c : RC) (s : Nat) : Except AdtErr (Option Nat × RC) :=
   match c.referents s with
   | none => .ok (c.direct s, c)
   | some n =>
-    let c1 : RC := { c with referents := fset c.referents s none }
+    -- `ref = self._referents.pop(symbol); ref.symbols.remove(symbol)`
+    -- (the symbol's direct referent is None while it is indirect)
+    let c1 := c.setReferent s none (c.atEnd s)
     match RC.climb c1 (c.next + 1) n c1.parent with
-    | none => .error .assertion
+    | none => .error .fuel
     | some (root, b, par) =>
       match c1.refs b with
-      | none => .error .keyError
-      | some (_, e) =>
-        .ok (some b, { c1 with parent := par, direct := fset c1.direct s (some b),
-                               atEnd := fset c1.atEnd s (root == e) })
+      | none => .error .fuel
+      | some (_, e) => .ok (some b, (c1.withParent par).setReferent s (some b) (root == e))
 
 /-- result of running (part of) the `_make_direct_refs` generator -/
 structure GenOut where
@@ -94,16 +146,31 @@ structure GenOut where
   budget : Nat             -- yields the consumer still wants
   suspended : Bool         -- stopped at a `yield`
 
+/-- one symbol becomes direct -/
+def RC.makeSymDirect (c : RC) (s referent : Nat) (atEnd : Bool) : RC :=
+  { c with referents := fset c.referents s none, direct := fset c.direct s (some referent),
+           atEnd := fset c.atEnd s atEnd }
+
 /-- the `for symbol in tuple(node.symbols)` loop, stopping when the consumer's
 budget is exhausted (right after the yield) -/
 def RC.drainSyms (referent : Nat) (atEnd : Bool) : RC → List Nat → List Nat → Nat → GenOut
   | c, [], acc, k => { c := c, yielded := acc, budget := k, suspended := false }
   | c, s :: ss, acc, k =>
-    let c' : RC := { c with referents := fset c.referents s none,
-                            direct := fset c.direct s (some referent),
-                            atEnd := fset c.atEnd s atEnd }
+    let c' := c.makeSymDirect s referent atEnd
     if k = 1 then { c := c', yielded := acc ++ [s], budget := 0, suspended := true }
     else RC.drainSyms referent atEnd c' ss (acc ++ [s]) (k - 1)
+
+/-- `child.parent = root` for all children of a non-root node -/
+def RC.adopt (c : RC) (root : Nat) : List Nat → RC
+  | [] => c
+  | ch :: r => RC.adopt { c with parent := fset c.parent ch (.node root) } root r
+
+/-- `if node.parent is root: root.children.remove(node)` (the node has been
+emptied by the two loops before; the model checks it) -/
+def RC.retire (c : RC) (node root : Nat) : RC :=
+  if c.parent node == .node root && c.treeEmpty node then
+    { c with parent := fset c.parent node .dead }
+  else c
 
 /-- `_make_direct_refs(referent, root, at_end)` with a worklist (stack) -/
 def RC.makeDirect (referent root : Nat) (atEnd : Bool) :
@@ -111,40 +178,46 @@ def RC.makeDirect (referent root : Nat) (atEnd : Bool) :
   | 0, c, _, acc, k => { c := c, yielded := acc, budget := k, suspended := false }
   | _ + 1, c, [], acc, k => { c := c, yielded := acc, budget := k, suspended := false }
   | fuel + 1, c, node :: work, acc, k =>
-    -- children are re-parented to the root and pushed (the last pushed is popped first)
-    let kids := c.children node
-    let c1 : RC := if node = root then c
-      else { c with parent := kids.foldl (fun p ch => fset p ch (.node root)) c.parent }
-    let work1 := kids.reverse ++ work
-    let out := RC.drainSyms referent atEnd c1 (c1.symbols node) acc k
-    if out.suspended then out
+    if c.parent node == .dead then
+      -- cannot happen (worklist nodes are distinct live nodes); kept total
+      RC.makeDirect referent root atEnd fuel c work acc k
     else
-      let c2 : RC :=
-        if out.c.parent node == .node root then { out.c with parent := fset out.c.parent node .dead }
-        else out.c
-      RC.makeDirect referent root atEnd fuel c2 work1 out.yielded out.budget
+      -- children are re-parented to the root and pushed (the last pushed is popped first)
+      let kids := c.children node
+      let c1 : RC := if node = root then c else c.adopt root kids
+      let work1 := kids.reverse ++ work
+      let out := RC.drainSyms referent atEnd c1 (c1.symbols node) acc k
+      if out.suspended then out
+      else RC.makeDirect referent root atEnd fuel (out.c.retire node root) work1 out.yielded out.budget
+
+/-- both trees are drained: the roots are garbage (`del self._references[block]`) -/
+def RC.dropTrees (c : RC) (block sr er : Nat) : RC :=
+  { c with refs := fset c.refs block none,
+           refBlocks := c.refBlocks.filter (· != block),
+           parent := fset (fset c.parent sr .dead) er .dead }
 
 /-- `get_references(block)` consumed until `k` symbols were yielded (or to
-exhaustion when it yields fewer). `k = 0`: the generator is never started. -/
-def RC.getReferences (c : RC) (block : Nat) (k : Nat) : RC × List Nat :=
-  if k = 0 then (c, [])
+exhaustion when it yields fewer). `k = 0`: the generator is never started.
+`none` = the model's fuel was exhausted (never observed; termination bound
+not proved). -/
+def RC.getReferences (c : RC) (block : Nat) (k : Nat) : Option (RC × List Nat) :=
+  if k = 0 then some (c, [])
   else
     let ds := c.directRefs block
-    if k ≤ ds.length then (c, ds.take k)
+    if k ≤ ds.length then some (c, ds.take k)
     else
       let k1 := k - ds.length
       match c.refs block with
-      | none => (c, ds)
+      | none => some (c, ds)
       | some (sr, er) =>
         let o1 := RC.makeDirect block sr false (c.next + 1) c [sr] ds k1
-        if o1.suspended then (o1.c, o1.yielded)
+        if o1.suspended then some (o1.c, o1.yielded)
         else
           let o2 := RC.makeDirect block er true (c.next + 1) o1.c [er] o1.yielded o1.budget
-          if o2.suspended then (o2.c, o2.yielded)
-          else
-            ({ o2.c with refs := fset o2.c.refs block none,
-                         refBlocks := o2.c.refBlocks.filter (· != block),
-                         parent := fset (fset o2.c.parent sr .dead) er .dead }, o2.yielded)
+          if o2.suspended then some (o2.c, o2.yielded)
+          else if o2.c.treeEmpty sr && o2.c.treeEmpty er then
+            some (o2.c.dropTrees block sr er, o2.yielded)
+          else none
 
 /-- `retarget_references(block, to_block, at_end)` -/
 def RC.retarget (c : RC) (block : Nat) (to : Option Nat) (atEnd : Bool) : Except AdtErr RC :=
@@ -152,47 +225,31 @@ def RC.retarget (c : RC) (block : Nat) (to : Option Nat) (atEnd : Bool) : Except
   else match to with
   | none =>
     -- `not any(self.get_references(block))`: stops at the first symbol
-    let (c', ys) := c.getReferences block 1
-    if ys.isEmpty then .ok c' else .error .assertion
-  | some to =>
-    -- detach / create the two trees of `block`
-    let (c1, sr, er) : RC × Nat × Nat :=
-      match c.refs block with
-      | some (s, e) => ({ c with refs := fset c.refs block none,
-                                 refBlocks := c.refBlocks.filter (· != block) }, s, e)
-      | none =>
-        let (ca, s) := c.alloc block
-        let (cb, e) := ca.alloc block
-        (cb, s, e)
-    -- direct references become indirect
-    let ds := c.directRefs block
-    let c2 : RC := ds.foldl (fun c s =>
-      { c with referents := fset c.referents s (some (if c.atEnd s then er else sr)),
-               direct := fset c.direct s none }) c1
-    -- trees of the target
-    let c3 : RC :=
-      match c2.refs to with
-      | some _ => c2
-      | none =>
-        let (ca, s) := c2.alloc to
-        let (cb, e) := ca.alloc to
-        { cb with refs := fset cb.refs to (some (s, e)), refBlocks := cb.refBlocks ++ [to] }
-    match c3.refs to with
-    | none => .error .assertion     -- unreachable
-    | some (ts, te) =>
-      let tgt := if atEnd then te else ts
-      .ok { c3 with parent := fset (fset c3.parent sr (.node tgt)) er (.node tgt) }
+    match c.getReferences block 1 with
+    | none => .error .fuel
+    | some (c', ys) => if ys.isEmpty then .ok c' else .error .assertion
+  | some t =>
+    -- `RefNode(block), RefNode(block)` when absent; direct -> indirect; hang under the target
+    .ok (((c.ensureTrees block).indirectify block).graft block t atEnd)
 
-/-- `apply()` -/
-def RC.apply (c : RC) : RC :=
-  let c' := c.refBlocks.foldl (fun c b =>
-    match c.refs b with
-    | none => c
-    | some (sr, er) =>
-      let o1 := RC.makeDirect b sr false (c.next + 1) c [sr] [] (c.nSyms + 1)
-      let o2 := RC.makeDirect b er true (c.next + 1) o1.c [er] [] (c.nSyms + 1)
-      { o2.c with parent := fset (fset o2.c.parent sr .dead) er .dead }) c
-  { c' with refs := fun _ => none, refBlocks := [] }
+def RC.allDirect (c : RC) : Bool := (List.range c.nSyms).all (fun s => (c.referents s).isNone)
+
+/-- `self._references.clear()` once no symbol is indirect: every RefNode is garbage -/
+def RC.clearAll (c : RC) : RC :=
+  { c with refs := fun _ => none, refBlocks := [], parent := fun _ => .dead }
+
+def RC.drainBlocks : List Nat → RC → Option RC
+  | [], c => some c
+  | b :: bs, c =>
+    match c.getReferences b (c.nSyms + 1) with
+    | none => none
+    | some (c', _) => RC.drainBlocks bs c'
+
+/-- `apply()`: drain every registered block, then clear the table -/
+def RC.apply (c : RC) : Option RC :=
+  match RC.drainBlocks c.refBlocks c with
+  | none => none
+  | some c' => if c'.allDirect then some c'.clearAll else none
 
 /-- operations of a history -/
 inductive RcOp
